@@ -1009,6 +1009,38 @@ func runNip11Tab(c *core.Ctx) {
 		return
 	}
 	fns := an.WithAnon(build)
+	// the stacking may live in a private function / method the builder's closure hands the
+	// limitation block to (`nip11.Limitation.wrapHandler(h)`): read there, in the builder's terms
+	siteOf := map[*ssa.Function]*ssa.CallCommon{}
+	for _, fn := range append([]*ssa.Function(nil), fns...) {
+		for _, ci := range calls(fn) {
+			g := an.StaticCallee(ci.Common())
+			if g == nil || !an.PrivateHelper(g) || siteOf[g] != nil {
+				continue
+			}
+			if _, isCall := ci.(*ssa.Call); !isCall {
+				continue
+			}
+			for _, h := range an.WithAnon(g) {
+				dup := false
+				for _, f := range fns {
+					if f == h {
+						dup = true
+					}
+				}
+				if !dup {
+					fns = append(fns, h)
+					siteOf[h] = ci.Common()
+				}
+			}
+		}
+	}
+	inBuilder := func(fn *ssa.Function, v ssa.Value) string {
+		if site := siteOf[fn]; site != nil {
+			return an.PathOfIn(v, site)
+		}
+		return an.PathOf(v)
+	}
 	c.CountFuncs(len(fns))
 	for _, row := range nip11Table {
 		ok, applied := false, false
@@ -1017,7 +1049,7 @@ func runNip11Tab(c *core.Ctx) {
 		for _, fn := range fns {
 			for _, call := range callsNamed(fn, core.ModulePath+"."+row.ctor) {
 				pos = call.Pos()
-				arg := an.PathOf(call.Call.Args[0])
+				arg := inBuilder(fn, call.Call.Args[0])
 				if !strings.HasSuffix(arg, ".Limitation."+row.field) {
 					why = row.ctor + " is configured from " + arg + ", want Limitation." + row.field
 					continue
@@ -1025,7 +1057,7 @@ func runNip11Tab(c *core.Ctx) {
 				// guarded by field != 0
 				guarded := false
 				for _, g := range an.Guards(fn, call.Block()) {
-					if b, isBin := g.V.(*ssa.BinOp); isBin && an.PathOf(b.X) == arg {
+					if b, isBin := g.V.(*ssa.BinOp); isBin && inBuilder(fn, b.X) == arg {
 						if k, isK := an.ConstInt(b.Y); isK && k == 0 && (b.Op == token.NEQ) == g.True {
 							guarded = true
 						}
